@@ -3,8 +3,11 @@ LEAN_MODULES = ["Sif.Props.C03"]
 EXTRACT = []
 FAMILIES = [
     {"name": "calc", "family": "calc", "n_quick": 60000, "n_thorough": 600000, "seeds_thorough": 3},
+    {"name": "amm", "family": "amm", "driver": "drv_amm", "n_quick": 2500, "n_thorough": 20000, "seeds_thorough": 4},
 ]
-RULE = ("calc: CalcSwapResult on log-uniform depths 1..2^110, amounts to 2^128, boundary values, fee rates in [0,1], "
+RULE = ("amm: L1 histories on the real message server (three swap routes, fee overrides, ratio-shifting rates, liabilities) with the "
+        "balance changes of ALL known accounts judged by Spec.C03.settleOK and the whole state compared with the model; "
+        "calc: CalcSwapResult on log-uniform depths 1..2^110, amounts to 2^128, boundary values, fee rates in [0,1], "
         "ratio-shifting rates 0..1e6; non-trivial = distinct input with a non-zero pool and amount")
 TRUSTED_BASE = [
     "Lean 4.33.0 kernel; axioms propext, Classical.choice, Quot.sound (audited per theorem on every run)",
@@ -12,7 +15,7 @@ TRUSTED_BASE = [
     "Go harness + line protocol + sifdrv parser",
     "math/big, cosmos-sdk sdk.Uint/sdk.Dec (modelled, exercised by the correspondence)",
 ]
-ASSUMPTIONS = ["fee rate in [0,1] (enforced by MsgUpdateSwapFeeParams.ValidateBasic)", "ratio-shifting running rate >= 0"]
+ASSUMPTIONS = ["the signer is not the module account (it has no key)", "fee rate in [0,1] (enforced by MsgUpdateSwapFeeParams.ValidateBasic)", "ratio-shifting running rate >= 0"]
 UNPROVED = []
 MANIFEST = {
     "text": "Lean 4 theorems over an exact model of the swap calculators and the swap handler (bounds for every depth, amount, fee and rate; exact settlement), tied to the Go code by differential execution of the real functions and by evaluating the theorems' own decidable predicates on the implementation's outputs.",
